@@ -481,7 +481,16 @@ def execOp (name : String) (recv : Tok) (args : List Tok) (obsS : String) : M Un
     | _ => fail "protocol"
   | "contains" | "indexof" | "ocontains" | "keyof" =>
     match goToVal (← goVal1 args) with
-    | none => fail "protocol: non-canonical element"
+    | none =>
+      -- a Go value whose dynamic type is none of the seven that `getVal()` returns (another integer width, float32,
+      -- a native slice or map, an unsupported type): Go's `==` on interface values of different dynamic types is
+      -- false, so no stored element is identical to it
+      match name with
+      | "contains" | "ocontains" => cmpOut name (.ok [.lit (boolTok false)]) obs
+      | "indexof" => cmpOut name (.ok [.lit (intTok (-1))]) obs
+      | _ => match obs with
+        | .panic "noValue" => pure ()
+        | _ => fail "keyof: a value of a foreign Go type is held by no field, KeyOf has to panic"
     | some v =>
       match name with
       | "contains" => cmpOut name (.ok [.lit (boolTok (L.contains h a v))]) obs
@@ -646,6 +655,13 @@ def execOp (name : String) (recv : Tok) (args : List Tok) (obsS : String) : M Un
       -- bind any containers among the values first (they are existing ones, normally bound already)
       adoptOrder name r.2.addr content
     | .panic k => fail s!"{name}: observed panic {k}"
+  | "mergenil" | "concatnil" =>
+    -- a nil interface as the argument: the method call on it is a run-time panic, nothing is created or changed
+    match obs with
+    | .panic "runtime" => pure ()
+    | .panic k => fail s!"{name}: model panics runtime, observed panic {k}"
+    | .ok _ => fail s!"{name}: model panics (nil argument), observed a result"
+  | "equalsnil" | "oequalsnil" => cmpOut name (.ok [.lit (boolTok false)]) obs
   | "merge" =>
     match args with
     | [o] =>
